@@ -457,6 +457,16 @@ fn supervise(prop: &str, tier: Tier, seed: u64) -> i32 {
         coverage.insert("transitions".into(), x.clone());
     }
     let floor = props::floor(prop, tier);
+    let mut unreached: Vec<String> = Vec::new();
+    for site in props::required_sites(prop) {
+        if merged["monitor"]["hook_hits"][site].as_u64().unwrap_or(0) == 0 {
+            unreached.push(site.to_string());
+        }
+    }
+    coverage.insert("required_branches_reached".into(), json!({"required": props::required_sites(prop), "unreached": unreached}));
+    if !unreached.is_empty() {
+        harness_errors.push(format!("the workload never reached the library branches {:?} (hook hit counters are zero)", unreached));
+    }
     let inconclusive = timed_out || !harness_errors.is_empty() || evaluations < floor;
     let verdict = if !unlisted.is_empty() {
         "violated"
